@@ -34,17 +34,24 @@ def ident(m):
     return -1
 
 
-def build(tracks):
-    """tracks: list of lists of (id, eot, time) -> list of MidiTrack"""
+def build(tracks, alias=False):
+    """tracks: list of lists of (id, eot, time) -> list of MidiTrack.  With alias=True equal (id, eot, time) triples are
+    ONE message object appearing at several positions (`track * 2`, a marker shared between tracks)."""
     import mido
     out = []
+    cache = {}
     for tr in tracks:
         t = mido.MidiTrack()
         for (k, eot, time) in tr:
+            if alias and (k, eot, time) in cache:
+                t.append(cache[(k, eot, time)])
+                continue
             if eot:
-                t.append(mido.MetaMessage('end_of_track', time=time))
+                m = mido.MetaMessage('end_of_track', time=time)
             else:
-                t.append(make_msg(k).copy(time=time))
+                m = make_msg(k).copy(time=time)
+            cache[(k, eot, time)] = m
+            t.append(m)
         out.append(t)
     return out
 
@@ -73,13 +80,17 @@ def reference(tracks):
 def impl_case(c):
     import mido
     tracks, mode = c
-    objs = build(tracks)
+    alias = mode.endswith('+alias')
+    mode = mode.split('+')[0]
+    objs = build(tracks, alias)
     before = copy.deepcopy(objs)
-    try:
+
+    def merge():
         if mode == 'file':
-            res = mido.MidiFile(tracks=objs).merged_track
-        else:
-            res = mido.merge_tracks(objs, skip_checks=(mode == 'skip'))
+            return mido.MidiFile(tracks=objs).merged_track
+        return mido.merge_tracks(objs, skip_checks=(mode == 'skip'))
+    try:
+        res = merge()
     except Exception as e:
         return 'err ' + type(e).__name__, f'merge_tracks raised {type(e).__name__}: {e}'
     got = [(ident(m), 1 if m.type == 'end_of_track' else 0, m.time) for m in res]
@@ -93,6 +104,20 @@ def impl_case(c):
     elif [list(t) for t in objs] != [list(t) for t in before] or any(
             vars(a) != vars(b) for ta, tb in zip(objs, before) for a, b in zip(ta, tb)):
         fail = 'input tracks or messages were modified'
+    if fail is None:
+        # the caller may do what it likes with the result (pad the final end_of_track, shift events): later merges of the
+        # same, unchanged input must not be affected
+        try:
+            for m in res:
+                m.time = m.time + 1920
+            again = [(ident(m), 1 if m.type == 'end_of_track' else 0, m.time) for m in merge()]
+            empty = [(ident(m), 1 if m.type == 'end_of_track' else 0, m.time) for m in mido.merge_tracks([])]
+            if again != ref:
+                fail = f'after the caller changed the times of an earlier result, merging the same tracks gives {again} instead of {ref}'
+            elif empty != [(0, 1, 0)]:
+                fail = f'after the caller changed the times of an earlier result, merge_tracks([]) gives {empty}'
+        except Exception as e:
+            fail = f'second merge raised {type(e).__name__}: {e}'
     return line, fail
 
 
@@ -144,6 +169,24 @@ def gen(ck):
                 tr.append((k, 1, rng.choice([0, 0, 3, 1000])))
             trs.append(tr)
         cases.append((trs, rng.choice(['plain', 'skip', 'file'])))
+    # the same message object at several positions: repeated patterns (`track * 3`), one object shared between tracks
+    for _ in range(1500 if not thorough else 30000):
+        trs = []
+        k = 0
+        shared = (9000 + rng.randint(0, 50), 0, rng.choice([0, 1, 5]))
+        for _t in range(rng.choice([1, 2, 2, 3])):
+            pat = []
+            for _e in range(rng.randint(1, 4)):
+                k += 1
+                pat.append((k, 0, rng.choice([0, 1, 2, 5, 480])))
+            tr = pat * rng.randint(1, 4)
+            if rng.random() < 0.5:
+                tr.insert(rng.randrange(len(tr) + 1), shared)
+            if rng.random() < 0.4:
+                k += 1
+                tr.append((k, 1, rng.choice([0, 3])))
+            trs.append(tr)
+        cases.append((trs, rng.choice(['plain', 'skip', 'file']) + '+alias'))
     return cases
 
 
@@ -159,6 +202,8 @@ def run(ck):
         ck.count('tracks:%d' % len(trs))
         ck.count('events:%d' % min(nev // 5 * 5, 40))
         ck.count('mode:' + mode)
+        if mode.endswith('+alias'):
+            ck.count('same_object_at_several_positions')
         if fail:
             ck.oracle_fail({'tracks': trs, 'mode': mode}, fail)
         reqs.append('merge ' + ' | '.join(' '.join('%d:%d:%d' % e for e in tr) for tr in trs) if trs else 'merge')
